@@ -44,7 +44,7 @@ class C10(Prop):
         return re.sub(r" range=\d+\.\.\d+ hits=\d+", "", a) if isinstance(a, str) else a
     pid = "C10"
     title = "the scanner reports exactly the positions where the pattern matches"
-    thm_modules = ["PeliteModel.Thm.C10"]
+    thm_modules = ["PeliteModel.Thm.C10", "PeliteModel.Thm.C10Pos"]
     gens = [gen_scan.gen_corpus, gen_scan.gen_scan, gen_scan.gen_skiptable, gen_scan.gen_exec]
 
     def oracle(self, op, impl, model, spec):
